@@ -252,6 +252,17 @@ func genSettings(o *c.Out, r *c.Rng, t0 int64) {
 				t.C = fmt.Sprintf(t.C, cd)
 			}
 		}
+		if r.Chance(1, 20) {
+			// seconds that do not fit a Duration: time.Second * time.Duration(raw) wraps (Settings.seconds).
+			// The stable period takes any of them (a wrapped one is negative, ~0.29 s or ~292 years); the
+			// cool-down only those that wrap to a short or negative sleep (the virtual clock adds it to now).
+			// says() knows no number of more than 9 digits: the monitor demands nothing for that setting.
+			if r.Bool() {
+				t.P = c.Pick(r, []string{"9223372036", "9223372037", "-9223372037", "18446744074", "+09223372037"})
+			} else {
+				t.C = c.Pick(r, []string{"9223372037", "18446744074", "09223372037"})
+			}
+		}
 		if v, ok := says(t.I); ok && v < 0 {
 			// (a negative interval wraps Go's int64 subtraction on the first iteration: notes/C20.md
 			// "unbounded integers"; the differential suites leave it out)
